@@ -47,7 +47,7 @@ func srcOf(fset *token.FileSet, n ast.Node) string {
 // ------------------------------------------------------------------------------ IsPublicSymbol
 
 type ipsVal struct {
-	kind string // name | cond | parts | idxFirst | idxLast
+	kind string // name | cond | parts | idxFirst | idxLast | parent (the store's parent store)
 	lean string // Lean term (NameE for name, CondE for cond)
 }
 
@@ -120,7 +120,22 @@ func (c *ipsCtx) value(e ast.Expr, env map[string]ipsVal) (ipsVal, bool) {
 		}
 		v, ok := env[e.Name]
 		return v, ok
+	case *ast.SelectorExpr:
+		// store.parent
+		if f, ok := recvField(e, c.recv); ok && f == "parent" {
+			return ipsVal{"parent", ""}, true
+		}
 	case *ast.CallExpr:
+		// store.GetParentStore() (returns store.parent)
+		if sel, ok := e.Fun.(*ast.SelectorExpr); ok && isIdent(sel.X, c.recv) && sel.Sel.Name == "GetParentStore" && len(e.Args) == 0 {
+			return ipsVal{"parent", ""}, true
+		}
+		// <parent>.IsPublicSymbol(<name>): the same method, run by the parent store
+		if sel, ok := e.Fun.(*ast.SelectorExpr); ok && sel.Sel.Name == "IsPublicSymbol" && len(e.Args) == 1 {
+			if v, ok := c.value(sel.X, env); ok && v.kind == "parent" {
+				return ipsVal{"cond", "(.parentPublic " + c.name(e.Args[0], env) + ")"}, true
+			}
+		}
 		if call, _, ok := isStringsCall(e, "Split"); ok && len(call.Args) == 2 && isIdent(call.Args[0], c.param) && isDotLit(call.Args[1]) {
 			return ipsVal{"parts", ""}, true
 		}
@@ -195,7 +210,26 @@ func (c *ipsCtx) cond(e ast.Expr, env map[string]ipsVal) string {
 			return "(.and " + c.cond(e.X, env) + " " + c.cond(e.Y, env) + ")"
 		case token.LOR:
 			return "(.or " + c.cond(e.X, env) + " " + c.cond(e.Y, env) + ")"
+		case token.EQL:
+			// store.parent == nil
+			if x, y := e.X, e.Y; isNil(x) || isNil(y) {
+				if isNil(x) {
+					x = y
+				}
+				if v, ok := c.value(x, env); ok && v.kind == "parent" {
+					return "(.not .hasParent)"
+				}
+			}
 		case token.GTR, token.GEQ, token.NEQ:
+			// store.parent != nil
+			if x, y := e.X, e.Y; e.Op == token.NEQ && (isNil(x) || isNil(y)) {
+				if isNil(x) {
+					x = y
+				}
+				if v, ok := c.value(x, env); ok && v.kind == "parent" {
+					return ".hasParent"
+				}
+			}
 			n, okn := intLit(e.Y)
 			if !okn {
 				break
